@@ -26,6 +26,7 @@ func main() {
 	sites := flag.String("sites", "", "development: pkgs:callees, print site table rows")
 	panics := flag.String("panics", "", "development: root function, print panic sites in its closure")
 	guarded := flag.String("guarded", "", "development: pkg,pkg: print fields mostly accessed under the struct's mutex and their unlocked accesses")
+	errsweep := flag.String("errsweep", "", "development: regexp over function names: print fallible calls whose error is dropped, over all loaded packages")
 	swapsweep := flag.Bool("swapsweep", false, "development: print call sites whose same-typed arguments look transposed, over all loaded packages")
 	nilsweep := flag.String("nilsweep", "", "development: pkg,pkg: print dereferences of unchecked may-return-nil lookups")
 	flag.Parse()
@@ -45,8 +46,8 @@ func main() {
 			os.Exit(2)
 		}
 		var r struct {
-			Property   string           `json:"property"`
-			Tier       string           `json:"tier"`
+			Property   string          `json:"property"`
+			Tier       string          `json:"tier"`
 			Obligation core.Obligation `json:"obligation"`
 		}
 		if err := json.Unmarshal(b, &r); err != nil {
@@ -95,6 +96,10 @@ func main() {
 	}
 	if *guarded != "" {
 		props.DumpGuarded(prog, *guarded)
+		return
+	}
+	if *errsweep != "" {
+		props.DumpDroppedErrors(prog, *errsweep)
 		return
 	}
 	if *swapsweep {
